@@ -24,6 +24,8 @@ CONFIGS = {
     "set-set-third": dict(modes=("set", "set"), adversary=("third",)),
     "alloc-set-srverror": dict(modes=("allocate", "set"), adversary=("srv_error",)),
     "set-set-unwelcome": dict(modes=("set", "set"), welcome_error=True),
+    "alloc-input-helper": dict(modes=("allocate", "input"), helper_calls=True),
+    "set-input-helper-lossy": dict(modes=("set", "input"), helper_calls=True, eager=False, max_opens=4),
     "solo-alloc": dict(modes=("allocate",), nmsg=(1,)),
     "solo-input": dict(modes=("input",), nmsg=(1,), adversary=("third",)),
 }
